@@ -702,6 +702,9 @@ impl<C: Config, Q: Query> Snapshot<C, Q> {
         mut self,
         clean_edges: Vec<QueryID>,
         new_tfc: Option<Interned<TransitiveFirewallCallees>>,
+        new_observations: Option<
+            HashMap<QueryID, Observation, C::BuildHasher>,
+        >,
         caller_information: &CallerInformation,
         mut lock_guard: ComputingLockGuard<C>,
     ) {
@@ -709,7 +712,13 @@ impl<C: Config, Q: Query> Snapshot<C, Q> {
         let timsestamp = caller_information.timestamp();
 
         async move {
-            self.clean_query(clean_edges, new_tfc, timsestamp).await;
+            self.clean_query(
+                clean_edges,
+                new_tfc,
+                new_observations,
+                timsestamp,
+            )
+            .await;
 
             lock_guard.done();
         }
